@@ -352,6 +352,35 @@ def prelude(tier):
             shutil.rmtree(d, ignore_errors=True)
         if len(res["violations"]) >= 5:
             break
+    # history on ONE opened object: interval requests whose chromosome column is encoded against label lists in different orders / subsets
+    from bionumpy.encodings.string_encodings import StringEncoding
+    d = tempfile.mkdtemp(prefix="c17_files_")
+    m = 0
+    try:
+        path = os.path.join(d, "two.fa")
+        recs = [("c0", "ACGTAC"), ("c1", "TTGCA"), ("c2", "GG")]
+        with open(path, "w") as fh:
+            for name, seq in recs:
+                fh.write(">" + name + "\n" + "\n".join(seq[i:i + 4] for i in range(0, len(seq), 4)) + "\n")
+        seqd = dict(recs)
+        tuples = [("c0", 1, 5), ("c1", 0, 3), ("c0", 3, 4), ("c1", 4, 5)]
+        expected = [seqd[nm][a:b] for nm, a, b in tuples]
+        for orders in itertools.permutations((["c0", "c1"], ["c1", "c0"], ["c1", "c2", "c0"], ["c0", "c1", "c2"]), 2):
+            m += 1
+            fasta = bnp.open_indexed(path)
+            for k, labels in enumerate(orders):
+                try:
+                    iv = Interval.from_entry_tuples(tuples)
+                    iv = bnp.replace(iv, chromosome=bnp.as_encoded_array(iv.chromosome, StringEncoding(labels)))
+                    got = [s_.to_string() for s_ in fasta.get_interval_sequences(iv)]
+                except Exception as e:
+                    got = ("raised", type(e).__name__)
+                if got != expected and len(res["violations"]) < 4:
+                    res["violations"].append(dict(obligation="indexed-fasta-history", inputs=dict(label_orders=[list(o) for o in orders], request=k), output=repr(got),
+                                                  why=f"[real run, concrete files] request {k + 1} on one IndexedFasta with chromosome labels {labels} "
+                                                      f"(requests so far used {[list(o) for o in orders[:k + 1]]}): {got}, expected {expected}"))
+    finally:
+        shutil.rmtree(d, ignore_errors=True)
     res["solver_s"] = time.time() - t0
-    res["summary"] = f"library-built index read back through Genome.from_file and open_indexed on {n} concrete FASTA files: {len(res['violations'])} deviations"
+    res["summary"] = f"{m} two-request histories on one opened object with differently ordered chromosome labels; library-built index read back through Genome.from_file and open_indexed on {n} concrete FASTA files: {len(res['violations'])} deviations"
     return res
